@@ -61,6 +61,15 @@ def decl_specs(tier):
             for sg in (False, True):
                 specs.append({'c18': ['i1'], 'extra': [('w', I(n, signed=sg, end=e))]})
             specs.append({'c18': ['b35'], 'extra': [('w', I(n))], 'opts': {'endianness': e}})
+    # long literals: a constant-size byte string of 31..257 bytes between two integers; the corpus holds values full of
+    # regex metacharacters (in the first bytes, in the last bytes, everywhere) and plain ones
+    for N in (31, 32, 33, 34, 40, 64, 65, 255, 256, 257):
+        corpus = []
+        for body in (b'a' * N, b'.' * N, (b'a.-(' * N)[:N], b'a' * (N - 2) + b'\\$', b'/var/log/app.d/node-01/2024-01-0'.ljust(N, b'x')[:N], bytes((i % 94) + 33 for i in range(N))):
+            for z in (b'\x00\x07', b'\x01\x02'):
+                corpus.append(b'\x05' + body + z)
+                corpus.append(b'\x05' + body + z + b'tail')
+        specs.append({'c18': [], 'extra': [('a', I(1)), ('d', D(C(N))), ('z', I(2))], 'corpus': corpus})
     for s in specs:
         fields = []
         for i, cn in enumerate(s['c18']):
@@ -71,6 +80,8 @@ def decl_specs(tier):
 
 
 def corpus_for(dc, tier):
+    if dc.spec.get('corpus'):
+        return list(dc.spec['corpus'])
     base = [0, 1, 2]
     for b in sorted(alphabet.marker_bytes(dc.P)):
         if b not in base:
